@@ -256,5 +256,8 @@ func (rl *Shell) handleUndefined(bind inputrc.Bind, cmd func()) {
 	if rl.Keymap.Local() == keymap.Isearch {
 		rl.Hint.Reset()
 		rl.completer.Reset()
+
+		// The search minibuffer is gone: work on the input line again.
+		rl.line, rl.cursor, rl.selection = rl.completer.GetBuffer()
 	}
 }
